@@ -281,6 +281,38 @@ class Normalizer:
                 v = None
         return isinstance(v, int) and not isinstance(v, bool) and v > 0 and v & (v - 1) == 0
 
+    def _array_items(self, src, depth):
+        """[("val", element) | ("opt", optional element)] when `src` iterates an array literal, possibly through
+        map / filter / filter_map stages; None otherwise"""
+        is_ = lambda t, *ps: isinstance(t, tuple) and len(t) == 4 and t[0] == "call" and any(names.is_(t[1], p) for p in ps)
+        stages = []
+        x = src
+        for _ in range(8):
+            if is_(x, "slice::iter", "IntoIterator::into_iter", "Iterator::copied", "Iterator::cloned", "array::iter", "Deref::deref", "array::as_slice", "Iterator::by_ref") and x[2]:
+                x = x[2][0]
+            elif is_(x, "Iterator::map", "Iterator::filter_map", "Iterator::filter") and len(x[2]) == 2:
+                stages.append((x[1], x[2][1]))
+                x = x[2][0]
+            else:
+                break
+        if not (isinstance(x, tuple) and len(x) == 2 and x[0] == "array" and 0 < len(x[1]) <= 8):
+            return None
+        items = [("val", e) for e in x[1]]
+        for callee, f in reversed(stages):
+            out = []
+            for k, e in items:
+                if k != "val":
+                    return None  # a stage after an optional element: keep it simple
+                if names.is_(callee, "Iterator::map"):
+                    out.append(("val", self.norm(self.apply(f, (e,), depth), depth + 1)))
+                elif names.is_(callee, "Iterator::filter_map"):
+                    out.append(("opt", self.norm(self.apply(f, (e,), depth), depth + 1)))
+                else:
+                    c = self.norm(self.apply(f, (e,), depth), depth + 1)
+                    out.append(("opt", bool_case(c, some(e), NONE)))
+            items = out
+        return items
+
     def _combinator(self, callee, a, depth):
         is_ = lambda *ps: any(names.is_(callee, p) for p in ps)
         ap = lambda f, *xs: self.apply(f, xs, depth)
@@ -288,6 +320,26 @@ class Normalizer:
         if n == 0:
             return None
         x = a[0]
+        # ---- iteration over an array literal: a constant table walked by all/any/fold is the unrolled expression
+        if is_("Iterator::all", "Iterator::any") and n == 2:
+            items = self._array_items(x, depth)
+            if items is not None and all(k == "val" for k, v in items):
+                res = ("const", 1 if is_("Iterator::all") else 0)
+                for k, e in reversed(items):
+                    c = self.norm(ap(a[1], e), depth + 1)
+                    res = bool_case(c, res, ("const", 0)) if is_("Iterator::all") else bool_case(c, ("const", 1), res)
+                return res
+        if is_("Iterator::fold") and n == 3:
+            items = self._array_items(x, depth)
+            if items is not None:
+                acc = a[1]
+                for k, e in items:
+                    if k == "val":
+                        acc = self.norm(ap(a[2], acc, e), depth + 1)
+                    else:
+                        acc0 = acc
+                        acc = opt_case(e, lambda pl, _acc=acc0: self.norm(ap(a[2], _acc, pl), depth + 1), acc0)
+                return acc
         # ---- integers: `a.saturating_add(b)` is `a.checked_add(b).unwrap_or(MAX)`
         m_ = re.match(r"^core::num::<impl (u8|u16|u32|u64|usize)>::saturating_add$", callee)
         if m_ and n == 2:
